@@ -6,7 +6,11 @@
        The reader task may be pending in a receive while the writer task is given its next call.
    R*  fine-grained behaviours for leg A2 (simulation): the history is the projection of every
        step to a stimulus token (D arrival, F server failure, r reader call, s/c writer call,
-       C cancel, S one loop pass). *)
+       C cancel, S one loop pass; x a close() whose close event the server refuses, e the end of the responder).
+   Z*  scenario families for leg A3 (run to quiescence, histories as in Q): a scripted application over every
+       capacity and every number of pending client events -
+         "failclose"   receive^a ; close() refused by the server ; receive^b ; close() ; end of the callable
+         "sender"      send^a ; end of the callable   (the responder never receives) *)
 EXTENDS WsBuffer, Json
 VARIABLES h, fin
 mcvars == <<vars, h, fin>>
@@ -28,21 +32,30 @@ XCancelRecv    == CancelRecv /\ Keep
 XAppSend       == AppSend /\ Keep
 XSendRet       == SendRet /\ Keep
 XAppClose      == AppClose /\ Keep
+XAppCloseF     == AppCloseF /\ Keep
 XCloseSent     == CloseSent /\ Keep
+XCloseSendFail == CloseSendFail /\ Keep
 XCloseFinish   == CloseFinish /\ Keep
+XRespEnd       == RespEnd /\ Keep
+XAppReturn     == AppReturn /\ Keep
 XNext == XSrvArrive \/ XSrvFail \/ XPumpLoop \/ XPumpGot \/ XPumpCheck \/ XPumpWake \/ XPumpCancelled \/ XAppRecv
          \/ XRecvLoop \/ XRecvWake \/ XRecvRawRet \/ XCancelRecv \/ XAppSend \/ XSendRet \/ XAppClose \/ XCloseSent
-         \/ XCloseFinish
+         \/ XCloseFinish \/ XAppCloseF \/ XCloseSendFail \/ XRespEnd \/ XAppReturn
 XSpec == XInit /\ [][XNext]_mcvars
 XFairSpec == XSpec /\ WF_mcvars(XPumpLoop \/ XPumpGot \/ XPumpCheck \/ XPumpWake \/ XPumpCancelled)
                    /\ WF_mcvars(XRecvLoop \/ XRecvWake \/ XRecvRawRet)
-                   /\ WF_mcvars(XSendRet \/ XCloseSent \/ XCloseFinish)
+                   /\ WF_mcvars(XSendRet \/ XCloseSent \/ XCloseSendFail \/ XCloseFinish \/ XAppReturn)
                    /\ WF_mcvars(XSrvArrive)
 XSenderLearnsPromptly == [][(wpc = "idle" /\ wpc' = "sending") => ~disc]_mcvars
 (* the scenario the two-task model exists for must be reachable: a receive pending on an empty
    buffer is released because the pump was cancelled by close() / ended by a server failure *)
 ReleasedByClose == ~(rpc = "recvWait" /\ popW = "pending" /\ ppc = "cancelled")
 ReleasedByFault == ~(rpc = "recvWait" /\ popW = "pending" /\ ppc = "failed")
+(* ... and the two situations of the later extension: a receive delivers the event the pump held in hand while
+   a close() failed on the wire; the callable returns after the pump was parked at an exactly full queue
+   holding the disconnect, with a responder that never received *)
+DeliveredAfterFailedClose == ~(nsf > 0 /\ Len(taken) = mq + 1 /\ wlast = Res("close", SENDFAIL) /\ rdone = mq + 1 /\ mq > 0)
+ReturnedFromFullQueue == ~(apc = "returned" /\ rdone = 0 /\ Len(queue) = mq /\ mq > 0 /\ ppc = "cancelled" /\ disc)
 
 (* ---- leg A1: run-to-quiescence behaviours ---- *)
 Ent(e, op, r, p) == [e |-> e, op |-> op, r |-> r, pulls |-> p]
@@ -55,13 +68,29 @@ QFail   == QStim(SrvFail, "F", "")
 QRecv   == QStim(AppRecv, "A", "recv")
 QSend   == QStim(AppSend, "A", "send")
 QClose  == QStim(AppClose, "A", "close")
+QCloseF == QStim(AppCloseF, "A", "closeF")
+QEnd    == QStim(RespEnd, "E", "")
 QCancel == QStim(CancelRecv, "C", "")
 QInternal == ~fin /\ Internal /\ h' = LogRet(h) /\ UNCHANGED fin
 QFin == Quiet /\ ~fin /\ fin' = TRUE /\ UNCHANGED <<vars, h>>
-QNext == QArrive \/ QFail \/ QRecv \/ QSend \/ QClose \/ QCancel \/ QInternal \/ QFin
+QNext == QArrive \/ QFail \/ QRecv \/ QSend \/ QClose \/ QCloseF \/ QEnd \/ QCancel \/ QInternal \/ QFin
 QEmit == fin => PrintT(ToJson([mq |-> mq, all |-> all, h |-> h, pulls |-> pulls,
                                pumpAlive |-> (ppc \in Live), outstanding |-> (pull # "none"),
-                               waiting |-> Waiting]))
+                               waiting |-> Waiting, returned |-> (apc = "returned"), fam |-> ""]))
+
+(* ---- leg A3: scenario families (run to quiescence) ---- *)
+CONSTANT Family           \* "failclose" | "sender"
+ZFailed == nsf > 0
+ZFailClose == Family = "failclose" /\ (QRecv \/ (~ZFailed /\ QCloseF) \/ (ZFailed /\ QClose) \/ (wpc = "closed" /\ QEnd))
+ZSender    == Family = "sender" /\ (QSend \/ (wdone > 0 /\ QEnd))
+ZFin       == QFin /\ apc = "returned"
+ZArrive    == QArrive /\ (Family = "failclose" => (rdone = 0 /\ wdone = 0 /\ wpc = "idle"))   \* the client events are pending
+                                                                                     \* before the first call
+ZNext == ZArrive \/ QInternal \/ ZFin \/ ZFailClose \/ ZSender
+ZInit == XInit /\ Len(all) <= mq + 2        \* 0..capacity+1 messages, then a disconnect or not
+ZEmit == fin => PrintT(ToJson([mq |-> mq, all |-> all, h |-> h, pulls |-> pulls,
+                               pumpAlive |-> (ppc \in Live), outstanding |-> (pull # "none"),
+                               waiting |-> Waiting, returned |-> (apc = "returned"), fam |-> Family]))
 
 (* ---- leg A2: fine-grained behaviours, projected to stimulus tokens ---- *)
 CONSTANT Depth
@@ -71,9 +100,11 @@ RFail   == Tok(SrvFail, "F")
 RRecv   == Tok(AppRecv, "r")
 RSend   == Tok(AppSend, "s")
 RClose  == Tok(AppClose, "c")
+RCloseF == Tok(AppCloseF, "x")
+REnd    == Tok(RespEnd, "e")
 RCancel == Tok(CancelRecv, "C")
 RStep   == Tok(Internal, "S")
 RPass   == Tok(UNCHANGED vars, "S")
-RNext == RArrive \/ RFail \/ RRecv \/ RSend \/ RClose \/ RCancel \/ RStep \/ RPass
+RNext == RArrive \/ RFail \/ RRecv \/ RSend \/ RClose \/ RCloseF \/ REnd \/ RCancel \/ RStep \/ RPass
 REmit == (Len(h) = Depth) => PrintT(ToJson([mq |-> mq, all |-> all, h |-> h]))
 ============================================================================
